@@ -488,13 +488,17 @@ func (p *PacketConn) SetWriteDeadline(time.Time) error { return nil }
 // incoming datagrams are scripted: each Read returns the next scripted datagram, and blocks
 // until the read deadline when the script is exhausted.
 type ScriptedDatagramConn struct {
-	mu       sync.Mutex
-	cond     *sync.Cond
-	script   [][]byte
-	Written  [][]byte
-	deadline time.Time
-	timer    *time.Timer
-	closed   bool
+	// ReadGap is slept before each scripted datagram is handed out (time passes between replies).
+	ReadGap time.Duration
+	// ReadDeadlines records every non-zero read deadline that was set, in order.
+	ReadDeadlines []time.Time
+	mu            sync.Mutex
+	cond          *sync.Cond
+	script        [][]byte
+	Written       [][]byte
+	deadline      time.Time
+	timer         *time.Timer
+	closed        bool
 }
 
 // NewScripted returns a scripted datagram connection.
@@ -505,6 +509,9 @@ func NewScripted(replies [][]byte) *ScriptedDatagramConn {
 }
 
 func (c *ScriptedDatagramConn) Read(b []byte) (int, error) {
+	if c.ReadGap > 0 {
+		time.Sleep(c.ReadGap)
+	}
 	c.mu.Lock()
 	defer c.mu.Unlock()
 	for {
@@ -551,6 +558,9 @@ func (c *ScriptedDatagramConn) SetDeadline(t time.Time) error {
 func (c *ScriptedDatagramConn) SetReadDeadline(t time.Time) error {
 	c.mu.Lock()
 	c.deadline = t
+	if !t.IsZero() {
+		c.ReadDeadlines = append(c.ReadDeadlines, t)
+	}
 	if c.timer != nil {
 		c.timer.Stop()
 	}
